@@ -202,4 +202,4 @@ func runJ(c JCase) *vkit.Outcome {
 
 var propJ = vkit.NewProp([]string{c07}, "c07journalctl", genJ, runJ)
 
-func TestVerifC07Journalctl(t *testing.T) { propJ.Check(t) }
+func TestVerifC07Journalctl(t *testing.T) { propJ.CrashFile = true; propJ.Check(t) }
